@@ -27,6 +27,16 @@ func TestVerifC05SendClient(t *testing.T) {
 		if err := json.Unmarshal(raw, &c); err != nil {
 			t.Fatal(err)
 		}
+		if c.K == "sess" {
+			// reassembly through the real udpSessionManager and udpConn.Receive (c05_sess_client_test.go)
+			var mc c05mCase
+			if err := json.Unmarshal(raw, &mc); err != nil {
+				t.Fatal(err)
+			}
+			res["k"] = "sess"
+			out.Emit(c05mGuarded(t, res, func(res map[string]any) { c05mClientBubble(&mc, res) }))
+			continue
+		}
 		io := &c05sIO{far: &frag.Defragger{}, block: make(chan struct{})}
 		sm := newUDPSessionManager(io)
 		sm.mutex.Lock()
